@@ -44,8 +44,8 @@ CLAIMED = {
     technique=KANI + " on the loop-free integer kernels",
     ref="DESIGN.md §4 C11"),
  "C12": dict(
-    text="Dnskey::key_tag equals RFC 4034 Appendix B (incl. B.1 for algorithm 1) for all flags/protocol/algorithm values and all keys up to the stated length.",
-    note="Signed-data construction (signer vs validator vs RFC 4034 3.1.8.1), signature generation/verification and DS digests (ring) are not covered by a harness yet / out of reach; see DESIGN.",
+    text="The crypto-free parts: the validator's signed-data construction (RrsigExt::signed_data) equals an independent RFC 4034 3.1.8.1 / RFC 4035 5.3.2 construction - RRSIG RDATA prefix, lower-cased signer and owner, original TTL instead of the received one, wildcard owner rebuilt from the Labels field - for one A record under a two-label owner with all fields symbolic; Dnskey::key_tag equals RFC 4034 Appendix B (incl. B.1) for all field values and keys up to the stated length; the RRSIG Labels field (rrsig_label_count) ignores exactly the root and a leftmost asterisk label.",
+    note="Outside: the signer side (sign_sorted_rrset_in), RRsets with several records (canonical ordering inside signed_data), other RDATA types in the RRset, signature generation/verification and DS digests (ring FFI), and 'altering any covered field makes verification fail' (cryptographic).",
     technique=KANI + "; differential against an independent Appendix B implementation",
     ref="DESIGN.md §4 C12"),
  "C13": dict(
